@@ -874,6 +874,18 @@ func (env *Env) call(c *ECall) Val {
 			return env.adapt(v, to)
 		}
 		return Val{env.ex.convert(v.G.T, to.T, v.S), to}
+	case "fst", "snd", "third":
+		need(1)
+		v := arg(0)
+		if v.G.Tuple == nil {
+			sfail("%s needs a multi-result pure call", id.Name)
+		}
+		i := map[string]int{"fst": 0, "snd": 1, "third": 2}[id.Name]
+		parts := strings.Split(v.S, "\x00")
+		if i >= len(parts) {
+			sfail("%s: tuple has only %d components", id.Name, len(parts))
+		}
+		return Val{parts[i], v.G.Tuple[i]}
 	case "now": // inside old(...): evaluate in the current state
 		need(1)
 		if env.cur == nil {
@@ -969,8 +981,7 @@ func (env *Env) callNamed(name string, args []Expr) Val {
 		}
 		argS = append(argS, v.S)
 	}
-	rt := fn.Signature.Results().At(0).Type()
-	return Val{env.ex.applyPure(env.st, fn, con, argS), GType{T: rt}}
+	return env.pureResult(fn, con, argS)
 }
 
 func (env *Env) methodCall(recv Val, name string, args []Expr) Val {
@@ -1031,8 +1042,19 @@ func (env *Env) methodCall(recv Val, name string, args []Expr) Val {
 		}
 		argS = append(argS, v.S)
 	}
-	res := fn.Signature.Results().At(0).Type()
-	return Val{env.ex.applyPure(env.st, fn, con, argS), GType{T: res}}
+	return env.pureResult(fn, con, argS)
+}
+
+func (env *Env) pureResult(fn *ssa.Function, con *Contract, argS []string) Val {
+	terms := env.ex.applyPureN(env.st, fn, con, argS)
+	if len(terms) == 1 {
+		return Val{terms[0], GType{T: fn.Signature.Results().At(0).Type()}}
+	}
+	var ts []GType
+	for i := range terms {
+		ts = append(ts, GType{T: fn.Signature.Results().At(i).Type()})
+	}
+	return Val{strings.Join(terms, "\x00"), GType{Tuple: ts}}
 }
 
 func (env *Env) applyPred(p *Contract, args []Expr) Val {
